@@ -344,3 +344,208 @@ if __name__ == "__main__":
     import sys
     print(json.dumps(extract(), indent=1)[:3000])
     print(emit_coq(extract(), "templates")[:2000], file=sys.stderr)
+
+
+# ----------------------------------------------------------------------------- adjacent-gate fusers
+class _UF:
+    def __init__(self):
+        self.p = {}
+
+    def find(self, x):
+        self.p.setdefault(x, x)
+        while self.p[x] != x:
+            self.p[x] = self.p[self.p[x]]
+            x = self.p[x]
+        return x
+
+    def union(self, a, b):
+        self.p[self.find(a)] = self.find(b)
+
+
+def _seq_attr(node):
+    """seq[i].attr -> (i, attr)"""
+    if isinstance(node, ast.Attribute) and isinstance(node.value, ast.Subscript) \
+            and isinstance(node.value.value, ast.Name) and node.value.value.id == "seq" \
+            and isinstance(node.value.slice, ast.Constant):
+        return node.value.slice.value, node.attr
+    return None
+
+
+def extract_fusers(path=None):
+    """AdjacentGateFuser subclasses whose window is fixed by name/index equalities and whose fuse() is a
+    list literal of factory calls: returns {class: {"window": [...], "body": [...], "n_roles": k}}"""
+    path = path or os.path.join(TRANSPILE, "fuse.py")
+    tree = ast.parse(open(path).read(), path)
+    global ENV
+    ENV = Env(tree)
+    out = {}
+    for node in tree.body:
+        if not isinstance(node, ast.ClassDef) or node.name != "CNOTHCNOTFusingTranspiler":
+            continue
+        funcs = {f.name: f for f in node.body if isinstance(f, ast.FunctionDef)}
+        cnt = [s for s in funcs["target_gate_count"].body if isinstance(s, ast.Return)][0].value
+        if not (isinstance(cnt, ast.Constant) and isinstance(cnt.value, int)):
+            raise TranslateError("target_gate_count must return an int literal")
+        n = cnt.value
+        body = [s for s in funcs["is_target_sequence"].body if not (isinstance(s, ast.Expr) and isinstance(s.value, ast.Constant))]
+        if len(body) != 1 or not isinstance(body[0], ast.Return) or not isinstance(body[0].value, ast.BoolOp) \
+                or not isinstance(body[0].value.op, ast.And):
+            raise TranslateError("is_target_sequence must return a conjunction")
+        names = {}
+        eqs = []
+        for c in body[0].value.values:
+            if not (isinstance(c, ast.Compare) and len(c.ops) == 1 and isinstance(c.ops[0], ast.Eq)):
+                raise TranslateError("is_target_sequence: only == comparisons are supported")
+            l, r = _seq_attr(c.left), _seq_attr(c.comparators[0])
+            if l and l[1] == "name":
+                names[l[0]] = _gate_name_const(c.comparators[0])
+            elif l and r and l[1] in ("control_indices", "target_indices") and r[1] in ("control_indices", "target_indices"):
+                eqs.append((l, r))
+            else:
+                raise TranslateError(f"is_target_sequence: unsupported conjunct {ast.unparse(c)}")
+        if sorted(names) != list(range(n)):
+            raise TranslateError("is_target_sequence must fix the name of every gate of the window")
+        uf = _UF()
+        slots = {}
+        for i in range(n):
+            kind, ar, nc, npar = KINDS[names[i]]
+            if npar:
+                raise TranslateError("parametric gates in a fused window are not supported")
+            slots[(i, "control_indices")] = [(i, "c", j) for j in range(nc)]
+            slots[(i, "target_indices")] = [(i, "t", j) for j in range(ar - nc)]
+            for s in slots[(i, "control_indices")] + slots[(i, "target_indices")]:
+                uf.find(s)
+        for l, r in eqs:
+            a, b = slots[l], slots[r]
+            if len(a) != len(b):
+                raise TranslateError("index tuples of different lengths compared (the test can never hold)")
+            for x, y in zip(a, b):
+                uf.union(x, y)
+        role = {}
+
+        def rid(s):
+            r = uf.find(s)
+            if r not in role:
+                role[r] = len(role)
+            return role[r]
+        window = []
+        for i in range(n):
+            qs = [rid(s) for s in slots[(i, "control_indices")] + slots[(i, "target_indices")]]
+            if len(set(qs)) != len(qs):
+                raise TranslateError("window gate with repeated qubit")
+            window.append({"name": names[i], "roles": qs, "angles": []})
+        # fuse body
+        fstm = [s for s in funcs["fuse"].body if not (isinstance(s, ast.Expr) and isinstance(s.value, ast.Constant))]
+        roles = {}
+        for st in fstm[:-1]:
+            if not (isinstance(st, ast.Assign) and len(st.targets) == 1):
+                raise TranslateError("fuse: only assignments before return")
+            tg, val = st.targets[0], st.value
+            pairs = list(zip(tg.elts, val.elts)) if isinstance(tg, ast.Tuple) and isinstance(val, ast.Tuple) else [(tg, val)]
+            for t, v in pairs:
+                if not (isinstance(v, ast.Subscript) and isinstance(v.slice, ast.Constant)):
+                    raise TranslateError("fuse: binding must be seq[i].x_indices[j]")
+                sa = _seq_attr(v.value)
+                if not sa or sa[1] not in ("control_indices", "target_indices"):
+                    raise TranslateError("fuse: binding must be seq[i].x_indices[j]")
+                roles[t.id] = rid(slots[sa][v.slice.value])
+        ret = fstm[-1].value
+        if not isinstance(ret, ast.List):
+            raise TranslateError("fuse must return a list literal")
+        fbody = []
+        for call in ret.elts:
+            ch = _attr_chain(call.func)
+            if not ch or ch[0] not in ENV.gates_aliases or ch[1] not in KINDS:
+                raise TranslateError("fuse: unsupported gate factory")
+            kind, ar, nc, npar = KINDS[ch[1]]
+            if npar or len(call.args) != ar:
+                raise TranslateError("fuse: unsupported arguments")
+            fbody.append({"name": ch[1], "roles": [roles[a.id] for a in call.args], "angles": []})
+        out[node.name] = {"window": window, "body": fbody, "n_roles": len(role)}
+    if "CNOTHCNOTFusingTranspiler" not in out:
+        raise TranslateError("CNOTHCNOTFusingTranspiler not found")
+    # FuseRotationTranspiler: R(a) R(b) on one qubit -> R(a + b mod 2pi); shape check of the source
+    fr = [n for n in tree.body if isinstance(n, ast.ClassDef) and n.name == "FuseRotationTranspiler"]
+    if len(fr) != 1:
+        raise TranslateError("FuseRotationTranspiler not found")
+    ffun = {f.name: f for f in fr[0].body if isinstance(f, ast.FunctionDef)}
+    src_t = ast.unparse(ffun["is_target_sequence"])
+    src_f = ast.unparse(ffun["fuse"])
+    need_t = ["left, right = seq", "left.name in [gate_names.RX, gate_names.RY, gate_names.RZ]",
+              "left.name == right.name", "left.target_indices == right.target_indices"]
+    need_f = ["left, right = seq", "theta = (left.params[0] + right.params[0]) % (2.0 * np.pi)",
+              "QuantumGate(name=left.name, target_indices=left.target_indices, params=(theta,))"]
+    for frag in need_t:
+        if frag not in src_t:
+            raise TranslateError(f"FuseRotationTranspiler.is_target_sequence: expected `{frag}`")
+    for frag in need_f:
+        if frag not in src_f:
+            raise TranslateError(f"FuseRotationTranspiler.fuse: expected `{frag}`")
+    for k in ("RX", "RY", "RZ"):
+        out[f"FuseRotationTranspiler_{k}"] = {
+            "window": [{"name": k, "roles": [0], "angles": [{"pi4": 0, "th": [1, 0]}]},
+                       {"name": k, "roles": [0], "angles": [{"pi4": 0, "th": [0, 1]}]}],
+            "body": [{"name": k, "roles": [0], "angles": [{"pi4": 0, "th": [1, 1]}]}],
+            "n_roles": 1, "note": "angle reduced mod 2 pi by the code"}
+    return out
+
+
+def extract_clifford_table():
+    path = os.path.join(TRANSPILE, "gateset.py")
+    tree = ast.parse(open(path).read(), path)
+    global ENV
+    ENV = Env(tree)
+    val = None
+    for node in tree.body:
+        if isinstance(node, ast.AnnAssign) and isinstance(node.target, ast.Name) and node.target.id == "_equiv_clifford_table":
+            val = node.value
+    if not isinstance(val, ast.Dict):
+        raise TranslateError("_equiv_clifford_table not found")
+    tab = {}
+    for k, v in zip(val.keys, val.values):
+        key = _gate_name_const(k)
+        if key not in KINDS or KINDS[key][1] != 1 or KINDS[key][3] != 0:
+            raise TranslateError(f"clifford table key {key} is not a parameter-free single-qubit kind")
+        if not isinstance(v, ast.List):
+            raise TranslateError("clifford table value must be a list of lists")
+        rows = []
+        for cand in v.elts:
+            if not isinstance(cand, ast.List):
+                raise TranslateError("clifford table candidate must be a list")
+            row = [_gate_name_const(e) for e in cand.elts]
+            for g in row:
+                if g not in KINDS or KINDS[g][1] != 1 or KINDS[g][3] != 0:
+                    raise TranslateError(f"clifford table gate {g} unsupported")
+            rows.append(row)
+        tab[key] = rows
+    return tab
+
+
+def emit_fusers_coq(fus: dict, cliff: dict) -> str:
+    out = ["(* GENERATED by translate/templates.py from /repo -- do not edit *)",
+           "From Coq Require Import ZArith List String.", "From QP Require Import Gates.",
+           "Import ListNotations.", "Open Scope string_scope.", ""]
+    names = []
+    for cname in sorted(fus):
+        f = fus[cname]
+        w = ";\n     ".join(coq_gate(g) for g in f["window"])
+        b = ";\n     ".join(coq_gate(g) for g in f["body"])
+        out.append(f"Definition fuser_{cname} : (nat * list gate * list gate) :=\n  ({f['n_roles']}%nat,\n    [{w}],\n    [{b}]).\n")
+        names.append(f"fuser_{cname}")
+    out.append("Definition fusers_all : list (nat * list gate * list gate) :=\n  [" + ";\n   ".join(names) + "].\n")
+    rows = []
+    for key in sorted(cliff):
+        cands = "; ".join("[" + "; ".join(KINDS[g][0] for g in row) + "]" for row in cliff[key])
+        rows.append(f"({KINDS[key][0]}, [{cands}])")
+    out.append("Definition clifford_table : list (gkind * list (list gkind)) :=\n  [" + ";\n   ".join(rows) + "].\n")
+    return "\n".join(out)
+
+
+def run_fusers(gen_dir: str, json_path: str) -> dict:
+    fus = extract_fusers()
+    cliff = extract_clifford_table()
+    with open(os.path.join(gen_dir, "fusers.v"), "w") as f:
+        f.write(emit_fusers_coq(fus, cliff))
+    with open(json_path, "w") as f:
+        json.dump({"fusers": fus, "clifford_table": cliff}, f, indent=1)
+    return {"fusers": fus, "clifford_table": cliff}
